@@ -12,6 +12,18 @@ CHECKS = {
  "C03": ("model_checking", "E-STATE (families)", "exhaustive enumeration of concurrent operation sequences x every sync order on real replicas; documented-winner oracle + order-independence differential",
          "All pairs and triples of valid local operation sequences (length <=2, thorough <=3) on a common base, each synced in every possible order, then quiesced; the converged state must be the documented winner and identical for all orders.",
          "alphabet of 11 operations over 3 tasks / 2 properties / timestamps {1,2}; where the prose is silent only convergence, order independence and no-invented-value are asserted", "5/C03"),
+ "C02": ("model_checking", "E-SCHED on E-STATE states", "controlled scheduler over real Replica::sync futures: every interleaving of individual server requests (pairs exhaustively, triples preemption-bounded) from every distinct prior state of the C01 space",
+         "From every reachable prior state with >=2 replicas that have something to sync, every subset of >=2 replicas runs the real sync concurrently; each Server trait call parks at a gate and the explorer enumerates all release orders. Oracle: every sync Ok (never OutOfSync), replica invariant, quiescence convergence = chain replay. The rejection/retry path that no test executes is reached in thousands of distinct outcomes.",
+         "one Server request is atomic at the harness server; prior depth 4-6, triples preemption bound 2 (thorough 3)", "5/C02"),
+ "C05": ("model_checking", "E-DIFF + E-FAULT", "exhaustive batch enumeration executed in lock step on the real Replica (in-memory and SQLite) against a reference operation model, batch-vs-single differential, and an injected error at every storage call index",
+         "Every batch up to length 4-5 over creates/updates/removals/deletes/undo points on two tasks, valid or not, from 20 prior states (unsynced and synced), is committed through Replica::commit_operations and compared with the documented one-at-a-time semantics, with one-at-a-time commits on a clone, with the expected operation log and with base+pending; for every storage call of the commit an injected failure must leave the observable state unchanged.",
+         "SQLite with shorter batches (2-3) because each case re-opens a database; string domain tiny", "5/C05"),
+ "C07": ("model_checking", "E-STATE", "explicit-state search over commit/undo/stale-undo/sync histories on real replicas (both storages) with a harness-kept image of the task set at every undo point",
+         "Every history up to depth 6-9 of single-change commits (with/without undo point, made with the real TaskData API), undo, stale undo, undo after sync and sync, from empty and populated replicas; after each undo the exact earlier task set, the exact remaining unsynchronized list and the result flag are asserted, and the next sync's versions must equal the documented conversion of what remains.",
+         "lone-UndoPoint edge not asserted; one replica; SQLite depth 3-6", "5/C07"),
+ "C15": ("model_checking", "E-STATE", "explicit-state search over status/purge/rebuild/undo/remote-sync histories on real replicas (both storages) with the statement's working-set obligations as oracle after every rebuild and commit",
+         "Every history up to depth 5-9 over 3-4 tasks; gaps and entries whose task vanished arise by construction (purge, remote completion/deletion through a real second replica and sync); after every rebuild the working set must contain exactly the pending/recurring tasks once each, slot 0 empty, numbers stable without renumbering, 1..n in order with renumbering.",
+         "'after all numbers in use' is read as 'greater than every surviving number'", "5/C15"),
  "C12": ("model_checking", "E-STATE", "explicit-state search with snapshot urgency and avoid_snapshots as enumerated environment answers; independent snapshot decoder + chain-replay model; fresh replica from snapshot on every state",
          "Every history (incl. multi-version syncs and odd Unicode strings) x every urgency answer; each uploaded snapshot is decoded independently and compared with the chain replay at exactly its version; on every state a new replica is started from the latest snapshot against a server that discarded the earlier versions.",
          "snapshot => urgency>=threshold is asserted (the statement's 'only when'); the converse is counted, not asserted; one 2000-task (thorough 20000) scenario stands for 'thousands of tasks'", "5/C12"),
@@ -50,8 +62,8 @@ m = {
     "add_only": True,
   },
   "engines": [
-    {"name": "E-STATE", "path": "harness/src/explore/state.rs", "serves_properties": ["C01","C03","C12","C14"], "kind_free_text": "explicit-state depth-bounded DFS with iterative deepening over real objects, canonical-key dedup, rayon-parallel"},
-    {"name": "E-SCHED", "path": "harness/src/explore/sched.rs", "serves_properties": [], "kind_free_text": "controlled scheduler over real futures: one runnable task at a time, stateless DFS over choice prefixes with iterative deviation (preemption/fault) bounding"},
+    {"name": "E-STATE", "path": "harness/src/explore/state.rs", "serves_properties": ["C01","C03","C05","C07","C12","C14","C15"], "kind_free_text": "explicit-state depth-bounded DFS with iterative deepening over real objects, canonical-key dedup, rayon-parallel"},
+    {"name": "E-SCHED", "path": "harness/src/explore/sched.rs", "serves_properties": ["C02"], "kind_free_text": "controlled scheduler over real futures: one runnable task at a time, stateless DFS over choice prefixes with iterative deviation (preemption/fault) bounding"},
   ],
   "checks": checks,
   "notes": "All checks: exit 0 = held on everything explored (KNOWN-FINDING lines allowed), exit 1 + VIOLATION line, exit >=2 machinery failure. Known findings: /verif/known_findings.json.",
